@@ -63,3 +63,55 @@ reg('C14', True, 'other',
     'to_cartesian_translate with (x,y) in order; adaptor whitelist excludes anything that drops/duplicates.',
     'Real-number identities (no rounding). Trusted: symbolic interpreter and nalgebra/itertools models.',
     'symbolic execution of MIR + polynomial normal form + adaptor-chain recognition + finite truth table')
+
+reg('C07', True, 'other',
+    'Symbolic execution of the loop-free decision function over all paths; path conditions evaluated in an IEEE-754 '
+    'float-class abstract domain with the relational fact new?old for the scenarios {kT=+0, kT>0} x {better, equal, worse, '
+    'invalid}: must-accept / must-accept / must-reject (kT=0) or may (kT>0) / must-reject. Accepting paths return the '
+    'proposal\'s own score; the acceptance test is U < p with p == min(exp((new-old)/kT),1) as an exact normal form; '
+    'exactly one Rng::gen draw on the generator parameter; in the stepping function the decision is called once per '
+    'iteration with the score evaluated after the proposal, old = score_current, kT = the schedule variable, and every '
+    'generator argument in the loop is the local seeded by seed_from_u64(self.seed).',
+    'Assumes finite scores; rand Standard f64 is uniform on [0,1) and Pcg64Mcg\'s statistical quality are trusted.',
+    'symbolic execution + float-class abstract interpretation (decision table) + normal-form identity + dataflow')
+
+reg('C05', True, 'other',
+    'Abstract interpretation over IEEE float classes for EVERY configuration family with kt_start = +0: the builder is '
+    'executed symbolically (all paths); on every path feasible at kt_start=+0 the stored cooling factor must be finite and '
+    'non-negative (catches finish/0 = inf -> 0*inf = NaN); the schedule variable\'s least fixpoint in the stepping function '
+    '(all definitions, any number of loops) must stay {+0}; at kT=+0 the decision function must-rejects worse and invalid '
+    'proposals and must-accepts better/equal ones on every path.',
+    'Assumes kt_finish >= 0 finite, kt_ratio in [0,1], finite scores. Returned-state/score_current bookkeeping is C06.R4/R5.',
+    'symbolic execution of the builder + float-class abstract interpretation + flow-insensitive fixpoint over MIR locals')
+
+reg('C18', True, 'other',
+    'Structural: the schedule variable is initialised from kt_start and has exactly one update kT*self.kt_ratio, in the outer '
+    'loop but not the inner loop and on every path from the inner loop\'s exit to the outer loop head. Formula: the builder\'s '
+    'stored factor per family equals 1 - ratio, or powf(kt_finish/kt_start, 1/L) with L the outer loop\'s own trip count '
+    'lifted from the stepping function and rewritten through the builder\'s field assignments (factor^L = finish/kt_start).',
+    'Real-number identity (no rounding); the neither-ratio-nor-finish family is unspecified by the property and only noted. '
+    'Zero-stays-zero is decided under C05.',
+    'CFG loop structure + symbolic execution of the builder + normal-form identity against the loop trip count')
+
+reg('C19', True, 'other',
+    'Abstract interpretation: the step handed to set_sampled is max_step_size*m; the least fixpoint of m over all its '
+    'definitions in the stepping function (= every rejection history, any number of outer loops; IEEE float classes incl. '
+    'NaN/inf) must be within [+0,1]. Basis::sample is executed symbolically: value + step*(max-min)*U, U=gen_range(-1/2,1/2) on '
+    'the passed generator, and set_sampled sets exactly that sample.',
+    'Flow-insensitive (a cap expressed only by a branch guard instead of min/clamp would be reported undecidable). One '
+    'parameter per proposal is C06.R1; clamp only shortens a move (C08).',
+    'float-class abstract interpretation (fixpoint over MIR locals) + symbolic execution of the sampling leaf')
+
+reg('C20', True, 'other',
+    'May-panic enumeration over workspace code reachable from the stepping function, the state orderings and the binary: '
+    'every MIR Assert and panic-capable call must be discharged by an analysis (divisor interval excludes 0 for every builder '
+    'family; constant index < constant length; expect() of get(index) with index ~ Uniform(0,len) of the same never-resized Vec; '
+    'Uniform::new(0,len) with len>=1 because both generate_basis impls append an unconditional push; bounded counters; constant '
+    'arguments; pointers from UnsafeCell/Box) or match the committed precondition table (by structural signature and count). '
+    'Work: outer trip = floor(steps/I), inner trip = I (same field), one State::score per inner iteration. Convergence: the '
+    'block control-dependent on convergence=Some writes only its counter and the return place, counter += 1 iff '
+    'score_current - score_start < threshold else 0, exit when counter > 5. Binary: main returns Result and every fallible '
+    'call is propagated.',
+    'Panics inside third-party crates, allocation failure, I/O and panics conditional on an invalid/non-finite input state '
+    '(tabled preconditions) are not decided.',
+    'call-graph reachability + per-site discharge (interval abstract interpretation, dominance, dataflow) + precondition table')
